@@ -792,6 +792,7 @@ Fixpoint tclean1 (g : gstep) : bool :=
   | NAwait (TErr _) => false
   | NRaise _ => false
   | NNest b => forallb tclean1 b
+  | NYield w => match unwrap w with Err _ => false | Ok _ => true end   (* no member of w fails *)
   | _ => true
   end.
 
@@ -800,7 +801,7 @@ Proof. unfold clean. intros H1 H2. rewrite forallb_app, H1, H2. reflexivity. Qed
 
 Lemma nested1 : forall g, tclean1 g = true -> clean (inline1 g) /\ values (inline1 g) = tvalues1 g.
 Proof.
-  fix IH 1. intros g. destruct g as [o|v|e|b]; cbn [tclean1 inline1 tvalues1].
+  fix IH 1. intros g. destruct g as [o|v|e|b|w]; cbn [tclean1 inline1 tvalues1].
   - destruct o; intros H; try discriminate; cbn; auto.
   - cbn. auto.
   - discriminate.
@@ -814,6 +815,7 @@ Proof.
     rewrite (drive_clean _ (init (flat_map inline1 b)) (init_wf _) eq_refl G1) by (unfold fuel_of; cbn; lia).
     cbn [is_stopped init rest]. unfold drive_spec.
     rewrite <- G2. apply conv_values_clean. destruct (trailing _); auto.
+  - unfold yield_step. destruct (unwrap w); intros H; try discriminate; cbn; auto.
 Qed.
 
 Lemma nested_values b :
@@ -922,3 +924,82 @@ Lemma list_fails s e :
 Proof.
   intros Hwf Hp Hf He. unfold list_of_generator, fuel_of. apply list_loop_fail; auto. lia.
 Qed.
+
+(* ------------------------------------------------------------------ yields that are not Values: None, futures, containers
+   (the `else` paths of send / _send_inner).  Such a yield is never the end of the generator. *)
+Lemma yield_not_exhaustion s w b :
+  rest s = yield_step w :: b -> pending s = false -> is_stopped s = false ->
+  send s = (mkG b (S (pulls s)) (sent s ++ [TVal VNone]) (LPending (tres_of (unwrap w))) false, STask).
+Proof.
+  destruct s as [r p lg lt st]. unfold pending, yield_step. cbn [rest last_task is_stopped pulls sent].
+  intros -> Hp ->. unfold send. destruct lt; try discriminate; reflexivity.
+Qed.
+
+(* the pause `yield None` in particular: a task is handed out, the body is resumed with None *)
+Lemma pause_step : yield_step WNone = GAwait (TVal VNone).
+Proof. reflexivity. Qed.
+
+(* StopIteration comes out of send only when the body has nothing left to run (or is itself the
+   one raising it, which PEP 479 rules out for real generators) *)
+Lemma stop_only_when_exhausted s :
+  wf s -> pending s = false -> snd (send s) = SRaise E_STOPITER ->
+  rest s = [] \/ exists b, rest s = GRaise E_STOPITER :: b.
+Proof.
+  destruct s as [r p lg lt st]. unfold wf, pending. cbn [rest last_task is_stopped].
+  intros Hwf Hp. destruct st.
+  - destruct (Hwf eq_refl) as [-> _]. auto.
+  - unfold send. destruct lt; try discriminate; destruct r as [|[o|v|e] r]; cbn; auto;
+      intros E; try discriminate; inversion E; subst; eauto.
+Qed.
+
+(* a task of the generator computes to END_OF_GENERATOR only by running the body to its end *)
+Lemma inner_loop_end : forall f s yr,
+  snd (inner_loop f s yr) = TEnd -> rest (fst (inner_loop f s yr)) = [] /\ is_stopped (fst (inner_loop f s yr)) = true.
+Proof.
+  induction f as [|f IH]; intros s yr; [cbn; discriminate|].
+  destruct s as [b p lg lt st]. destruct b as [|[o|v|e] b]; cbn; try discriminate; auto.
+  destruct o as [v| |e]; cbn; try discriminate; apply IH.
+Qed.
+
+Lemma end_only_when_exhausted s :
+  pending s = true -> snd (compute s) = TEnd ->
+  rest (fst (compute s)) = [] /\ is_stopped (fst (compute s)) = true.
+Proof.
+  unfold pending, compute. destruct (last_task s) as [|first|r0] eqn:El; try discriminate. intros _.
+  destruct first as [v| |e]; cbn [fst snd]; try discriminate.
+  - pose proof (inner_loop_end (S (length (rest s))) s (TVal v)) as H.
+    destruct (inner_loop _ s (TVal v)) as [s1 r]. cbn [fst snd] in *. intros E. destruct (H E). auto.
+  - pose proof (inner_loop_end (S (length (rest s))) s TEnd) as H.
+    destruct (inner_loop _ s TEnd) as [s1 r]. cbn [fst snd] in *. intros E. destruct (H E). auto.
+Qed.
+
+(* for list_of_generator / take_first a body (nested, with any None / future / container yields that
+   do not fail) is the body that yields just its Values *)
+Lemma values_only_clean l :
+  forallb tclean1 (map NValue l) = true /\ flat_map tvalues1 (map NValue l) = l.
+Proof. induction l as [|v l [I1 I2]]; cbn; auto. split; auto. f_equal. exact I2. Qed.
+
+Lemma only_values_matter b n :
+  forallb tclean1 b = true ->
+  let b' := map NValue (flat_map tvalues1 b) in
+  snd (list_of_generator (init (inline b))) = snd (list_of_generator (init (inline b'))) /\
+  snd (take_first (init (inline b)) n) = snd (take_first (init (inline b'))  n).
+Proof.
+  intros H. cbn zeta. destruct (values_only_clean (flat_map tvalues1 b)) as [C V].
+  destruct (nested_list_take b n H) as [-> ->].
+  destruct (nested_list_take _ n C) as [-> ->]. rewrite V. auto.
+Qed.
+
+(* the hypotheses are satisfiable with every kind of non-Value yield, and the model computes *)
+Definition example_yields : list gstep :=
+  [NYield WNone; NAwait (TVal (VInt 7)); NYield (WTuple []); NValue (VInt 1);
+   NYield (WList [WNone; WFut (Ok (VInt 3))]); NYield WNone; NValue (VInt 2);
+   NNest [NYield (WDict [(1, WFut (Ok (VInt 4)))]); NValue (VInt 3); NYield WNone]; NYield WNone].
+
+Lemma example_yields_ok :
+  let b := example_yields in
+  forallb tclean1 b = true /\
+  snd (list_of_generator (init (inline b))) = LOk [TVal (VInt 1); TVal (VInt 2); TVal (VInt 3)] /\
+  snd (take_first (init (inline b)) 2) = LOk [TVal (VInt 1); TVal (VInt 2)] /\
+  snd (send (init (inline b))) = STask /\ is_stopped (fst (send (init (inline b)))) = false.
+Proof. vm_compute. repeat split; reflexivity. Qed.
